@@ -564,9 +564,13 @@ func check(prop, tier string) int {
 		"wall_s":      time.Since(start).Seconds(),
 		"violations":  confirmed,
 	}
-	os.MkdirAll(filepath.Join(verifDir, "evidence"), 0o755)
+	evDir := filepath.Join(verifDir, "evidence")
+	if d := os.Getenv("VERIF_EVIDENCE_DIR"); d != "" { // mutant runs must not overwrite the evidence of the real tree
+		evDir = d
+	}
+	os.MkdirAll(evDir, 0o755)
 	data, _ := json.MarshalIndent(ev, "", " ")
-	os.WriteFile(filepath.Join(verifDir, "evidence", prop+".json"), data, 0o644)
+	os.WriteFile(filepath.Join(evDir, prop+".json"), data, 0o644)
 	status := "held"
 	if rc != 0 {
 		status = "VIOLATED"
